@@ -1,5 +1,6 @@
 import SnootyVerif.Drv.Util
 import SnootyVerif.Model.Include
+import SnootyVerif.Proofs.IncludeSpec
 open Lean
 namespace SnootyVerif.Drv.C06
 open SnootyVerif.Drv SnootyVerif.Include
@@ -17,9 +18,15 @@ partial def showT : T → Json
 
 def cut (j : Json) : Except String Json := do
   let ns ← (← arr j "nodes").toList.mapM parseT
+  -- hypotheses and right-hand side of theorem C06.cut_spec, evaluated on this very input
+  let hyp := atomicL ns && decide ((unitsL ns).countP pS ≤ 1) && decide ((unitsL ns).countP pE ≤ 1) && !reversed (unitsL ns)
+  let spec := Json.arr ((between (unitsL ns)).map (fun t => (t.id : Json))).toArray
   match cutList ns with
-  | .ok (out, s, e) => pure (Json.mkObj [("ok", true), ("out", Json.arr (out.map showT).toArray), ("s", s), ("e", e)])
-  | .error m => pure (Json.mkObj [("ok", false), ("msg", m)])
+  | .ok (out, s, e) =>
+    pure (Json.mkObj [("ok", true), ("out", Json.arr (out.map showT).toArray), ("s", s), ("e", e),
+      ("spec_hyp", hyp), ("atomic", atomicL ns), ("between", spec),
+      ("units_out", Json.arr ((unitsL out).map (fun t => (t.id : Json))).toArray)])
+  | .error m => pure (Json.mkObj [("ok", false), ("msg", m), ("spec_hyp", hyp), ("atomic", atomicL ns)])
 
 partial def parseDoc (j : Json) : Except String Doc := do
   let id ← nat j "id"
